@@ -104,7 +104,12 @@ def run(ctx):
         ctx.violation({"string": c["s"], c.get("via", "languages"): c["langs"], "use_given_order": c["given"], "order_tried": c["order"], "DEFAULT_LANGUAGES": c["defaults"],
                        "region": c["region"], "settings": c["settings"]}, verdict, expected=exp,
                       observed={k: r[k] for k in ("singles", "multi", "multidef", "auto", "reparse", "region", "asLocale", "exc")}, extra={"full_case": c})
+    # the mechanism behind "only they are used": a locale is tried only if its vocabulary tokenizes the whole string.
+    # Tokenize.tla / Translate.tla are bound to that code here (model laws, exhaustive small domain, real languages).
+    from .. import tokcheck
+    tok = tokcheck.run(ctx, W) if not ctx.replay else {}
     cov = {
+        "tokenize": tok,
         "states": mc.distinct, "transitions": mc.generated, "traces_validated_against_impl": len(cases),
         "evaluations": sum(len(c["order"]) + 6 for c in cases),
         "distinct_nontrivial": len({(c["s"], tuple(c["langs"]), c["given"]) for c, r in zip(cases, results) if r["multi"]["res"] or r["auto"]["res"]}),
